@@ -121,6 +121,22 @@ def check_sinks(prog, chk, rule="A11.sink"):
                     if tg and cal.local:
                         ok, detail = escaper_summary(prog, tg[0])
                         detail = f"value passes through {tg[0].short}(), which {detail}" if ok else f"{tg[0].short}(): {detail}"
+                    elif cal.path.endswith("<impl str>::replace"):
+                        # an escaper that was spliced in (or written in place): the value is the end of a chain of
+                        # replace() calls, each applied to the result of the one before, '&' innermost
+                        chain = []
+                        cur = o
+                        for _ in range(6):
+                            if not (cur[0] == "call" and "fn" in cur[2] and Callee(cur[2]["fn"]).path.endswith("<impl str>::replace")):
+                                break
+                            pat = R.origin(body, cur[2]["args"][1], carriers={})
+                            to = R.origin(body, cur[2]["args"][2], carriers={})
+                            chain.append((pat[1].get("char", pat[1].get("str")) if pat[0] == "const" else None, to[1].get("str") if to[0] == "const" else None))
+                            cur = R.origin(body, cur[2]["args"][0], carriers={"as_bytes": 0, "deref": 0, "as_str": 0, "as_ref": 0, "borrow": 0})
+                        need = {"&": "&amp;", "<": "&lt;", '"': "&quot;"}
+                        got = dict(chain)
+                        ok = all(got.get(k) == v for k, v in need.items()) and bool(chain) and chain[-1][0] == "&"
+                        detail = "value is the result of an in-place replace chain & (first), <, \" -> entities" if ok else f"in-place replace chain {chain} does not escape & (first), < and \""
                     else:
                         detail = f"value comes from {cal.path}, not from an escaper"
             chk.ob(ok, rule, key + ":attribute-value", where, "raw attribute sink: " + detail, "raw attribute sink fed with an unescaped / partially escaped value (ill-formed output for values containing & < \"): " + detail)
